@@ -1,9 +1,9 @@
-\* replayed graph, request flow: node 1 requests twice from node 2; duplicates and losses of datagrams
+\* replayed graph (quick), request flow: node 1 requests twice from node 2, one time-out, reordering
 SPECIFICATION SpecL
 CONSTANTS
  Nodes = {1, 2} Adv = {} Requesters = {1} Verifiers = {}
  Values <- Vals1 NChunks = 2 Window = 10 Pre <- NoPre
- MaxReq = 2 MaxVer = 0 MaxHon = 0 MaxDup = 1 MaxDrop = 0 MaxAdv = 0 MaxTimeouts = 1 MaxTicks = 0
+ MaxReq = 2 MaxVer = 0 MaxHon = 0 MaxDup = 0 MaxDrop = 0 MaxAdv = 0 MaxTimeouts = 1 MaxTicks = 0
  AdvKinds = {"junk", "data", "resp", "chal"} AdvResps = {0, 1, 2, 3}
  TickSteps = {}
  OnceOnly = TRUE CheckPeer = TRUE CheckHash = TRUE AskConsent = TRUE
